@@ -89,3 +89,29 @@ MANIFEST_TEXT["C10"] = {
     "text": "Bounded model checking: each decoder runs on an arbitrary N-byte buffer (one symbolic bit-vector); every path is explored; any feasible Go panic (index, nil, slice bounds, make size, explicit), any loop exceeding its unwinding bound, and any allocation whose symbolic size can exceed max(N,255) elements is a violation with a concrete input replayed against the real build.",
     "note": "Trusted: z3, engine. Bounds: N per decoder group as listed in evidence.bounds; inputs longer than N are outside the claim.",
 }
+
+C12_SUPPORT = ["harness/c12/c12_types.go", "harness/c11/support_types.go"]
+PROPS["C12"] = {
+    "runs": [
+        {"pkg": "types", "harness": C12_SUPPORT, "run": "^VH_C12_", "params": {"quick": {"n": 1}, "thorough": {"n": 1, "pairs": 1}},
+         "flags": {"quick": ["-maxpaths", "100000"], "thorough": ["-maxpaths", "400000"]},
+         "must_reach": {"VH_C12_V2_ID_SameShape": ["end"], "VH_C12_V1_ID_SameShape": ["end"], "VH_C12_DerivedIDs": ["end"], "VH_C12_BlockID": ["end"], "VH_C12_V2_ID_ClaimAddress": ["end"]},
+         "tv_harnesses": ["VH_C12_V2_ID_SameShape", "VH_C12_DerivedIDs", "VH_C12_V2_ID_ClaimAddress"]},
+        {"pkg": "consensus", "harness": ["harness/c12/c12_cons.go", "harness/common/cons_support.go"], "run": "^VH_C12_",
+         "params": {"quick": {"n": 1}, "thorough": {"n": 2}},
+         "must_reach": {"VH_C12_V2SigHashes": ["end"], "VH_C12_V1WholeSigHash": ["cross-era", "same-era"], "VH_C12_V2Commitment": ["end"]},
+         "tv_harnesses": ["VH_C12_V2SigHashes", "VH_C12_V1WholeSigHash"]},
+        {"pkg": "types", "harness": C12_SUPPORT, "run": "^VH_C12_V2_ID_(SameShape|AdjacentShape)$", "params": {"thorough": {"n": 2}}, "thorough_only": True},
+    ],
+    "tv_runs": {"quick": 2, "thorough": 6},
+    "bounds": {"quick": "v1: one or two adjacent components populated with 1 element each (same shape, all 10 components; all adjacent-shape pairs with the 9 effect-bearing components populated); v2: all 10 components with 1 element, 3 resolution kinds; v1 currencies: one byte-length class in {0,1,8,9,16} per transaction (independent for the two transactions compared); derived IDs: symbolic indices, independent symbolic bases; block: 1 payout + 1 transaction",
+               "thorough": "v1: all component pairs; v2: also 2 elements per component; commitment with 2 transactions"},
+    "outside": ["shapes with more elements per component", "v1 PartialSigHash writes no length prefixes by design: only same-shape, same-covered-fields injectivity is meaningful (used in C03)",
+                "v1 signature hashes bind the replay prefix only through inputs (a v1 transaction without siacoin/siafund inputs has no prefix in its sighash); checked with >= 1 input"],
+    "stubs": ["sync.Pool.Get returns a fresh hasher"],
+    "assumptions": COMMON_ASSUME + IDEAL_CRYPTO,
+}
+MANIFEST_TEXT["C12"] = {
+    "text": "Bounded model checking under the ideal-hash model: ID(t1)==ID(t2) <=> effect-bearing content equal is decided by the solver over two fully symbolic transactions of one shape (the pre-images are produced by the real EncodeTo/hashAll code, so a field missing from the pre-image gives a concrete pair of transactions, replayed natively with real BLAKE2b); adjacent shapes, different resolution kinds, all derived-ID kinds and indices, v1/v2 sighashes across eras and purposes, block ID and v2 commitment likewise.",
+    "note": "Trusted: ideal (injective) hash per input length, z3/cvc5, engine. The effect-bearing projection is an independent statement in the harness (harness/c12). Bounds as in evidence.bounds.",
+}
